@@ -209,3 +209,24 @@ Theorem C14_server_name_refresh_frame : forall sname now t q,
   lookup (t_tree (fst (srv_refresh sname now t))) q = lookup (t_tree t) q.
 Proof. exact srv_refresh_frame. Qed.
 Print Assumptions C14_server_name_refresh_frame.
+
+(** round 7: legal input addressed to the metadata subtree x lifecycle.  The
+    history [ops] is arbitrary -- in particular it may hold deletes / updates
+    addressed to meta/targetLeaves, meta, meta/* ..., which rewrite the
+    bookkeeping (gnmiRemove -> ResetEntry) while the data leaves stay stored.
+    Whatever the counters say, Cache.Reset of an existing target (not refused by
+    a panic) leaves no leaf outside "meta" and announces, for every leaf that was
+    stored outside "meta", the delete of its root that matches it.  No hypothesis
+    on the metadata: [C14_reset_clears_leaves] carried none either; this is its
+    form over all reachable caches ([ex7_reset_hyps]: the counter reads 0 while
+    two leaves are stored). *)
+Theorem C14_reset_clears_leaves_any_history : forall cfg names ops name now t c' feed,
+  name <> ""%string ->
+  assoc name (c_targets (crun (new_cache cfg names) ops)) = Some t ->
+  cache_reset (crun (new_cache cfg names) ops) now name = (c', feed, None) ->
+  exists t', assoc name (c_targets c') = Some t' /\
+    (forall p0 rest v, lookup (t_tree t') (p0 :: rest) = Some v -> p0 = md_root) /\
+    (forall p0 rest v, lookup (t_tree t) (p0 :: rest) = Some v -> p0 <> md_root ->
+       In (delete_noti name p0 now ["*"]) feed /\ qmatch [p0; "*"] (p0 :: rest) = true).
+Proof. exact reset_clears_leaves_any_history. Qed.
+Print Assumptions C14_reset_clears_leaves_any_history.
